@@ -341,9 +341,14 @@ theorem chunksFile_eq (n : Nat) (s : Bytes) : chunksFile n s = chunks n s := by
 /-- usable maximum lengths: 0 (no limit) or at least 7 (room for one payload byte) -/
 def usableMax (maxLen : Nat) : Prop := maxLen = 0 ∨ 7 ≤ maxLen
 
+/-- the library default leaves room for a payload byte (checked against the value regenerated from the code) -/
+theorem default_ge_7 : 7 ≤ Dicom.Generated.defaultMaxPdu := by decide
+
 theorem effMax_ge_7 {maxLen : Nat} (h : usableMax maxLen) : 7 ≤ effMax maxLen := by
   unfold effMax; rcases h with h | h
-  · simp [h]
-  · split <;> omega
+  · simp only [h, ↓reduceIte]; exact default_ge_7
+  · split
+    · exact default_ge_7
+    · exact h
 
 end Dicom
